@@ -313,6 +313,78 @@ fn run_case(case: &Case) -> Outcome {
     out
 }
 
+/// Several throttling rules on one resource (loaded together, or one appended later): every rule paces
+/// the admissions, so consecutive admitted requests start at least max_i(batch*interval_i/rate_i) apart and
+/// the caller is held until then. Returns (violation, json of the case, decisions).
+fn run_multi_rule(rng: &mut Rng, base_ms: u64) -> (Option<(String, String)>, Value, u64) {
+    let res = fresh_name("c07m");
+    let t0 = (base_ms as i64) * 1_000_000;
+    VClock::set_ns(t0);
+    let nrules = rng.range(2, 3) as usize;
+    let mut specs: Vec<(f64, u64)> = vec![];
+    while specs.len() < nrules {
+        let s = (*rng.pick(&[2.0, 4.0, 5.0, 10.0, 20.0, 50.0]), *rng.pick(&[1000u64, 1000, 500, 2000]));
+        if !specs.contains(&s) {
+            specs.push(s);
+        }
+    }
+    let mk = |(rate, iv): (f64, u64)| {
+        Arc::new(flow::Rule {
+            resource: res.clone(),
+            threshold: rate,
+            control_strategy: flow::ControlStrategy::Throttling,
+            calculate_strategy: flow::CalculateStrategy::Direct,
+            max_queueing_time_ms: 60_000,
+            stat_interval_ms: iv as u32,
+            ..Default::default()
+        })
+    };
+    let appended = rng.chance(1, 2);
+    if appended {
+        flow::load_rules_of_resource(&res, vec![mk(specs[0])]).unwrap();
+        for s in &specs[1..] {
+            flow::append_rule(mk(*s));
+        }
+    } else {
+        flow::load_rules_of_resource(&res, specs.iter().map(|s| mk(*s)).collect()).unwrap();
+    }
+    let n = 6 + rng.below(20);
+    let mut gaps = vec![];
+    let mut last: Option<i64> = None;
+    let mut viol = None;
+    for i in 0..n {
+        let gap_ms = *rng.pick(&[0u64, 0, 0, 1, 10, 40, 100, 300]);
+        gaps.push(gap_ms);
+        VClock::advance_ms(gap_ms);
+        let batch = *rng.pick(&[1u32, 1, 1, 2]);
+        let arrival = VClock::now_ns();
+        let r = EntryBuilder::new(res.clone()).with_batch_count(batch).build();
+        let start = VClock::now_ns();
+        if let Ok(e) = r {
+            e.exit();
+            let need = specs.iter().map(|(rate, iv)| batch as f64 * *iv as f64 * 1e6 / rate).fold(0.0, f64::max);
+            if let Some(p) = last {
+                if ((start - p) as f64) < need - 2.0 {
+                    viol = Some((
+                        "flow/multi-rule/caller-not-held-until-its-slot".to_string(),
+                        format!(
+                            "{} throttling rules (rate, interval ms) {specs:?} ({}): req#{i} batch {batch} arrived {} ns after the previous admitted start and started {} ns after it; the slowest rule requires {need:.0} ns",
+                            specs.len(),
+                            if appended { "first loaded, others appended" } else { "loaded together" },
+                            arrival - p,
+                            start - p
+                        ),
+                    ));
+                    break;
+                }
+            }
+            last = Some(start);
+        }
+    }
+    let _ = flow::load_rules_of_resource(&res, vec![]);
+    (viol, json!({"multi_rule": specs, "appended": appended, "gaps_ms": gaps, "t0_ms": base_ms}), n)
+}
+
 fn main() {
     let opts = Opts::parse();
     common::install_panic_capture();
@@ -341,6 +413,20 @@ fn main() {
             Err(p) => {
                 rep.case(None, || Value::Null);
                 rep.violation(&format!("panic/{}", common::panic_site(&p)), p, case.to_json());
+            }
+        }
+        if i % 6 == 5 {
+            base += 200_000;
+            match common::catch(|| run_multi_rule(&mut rng, base)) {
+                Ok((v, cj, n)) => {
+                    rep.count("decisions", n);
+                    rep.count("multi_rule_cases", 1);
+                    rep.case(Some(format!("flow|multi-rule|{}", cj["multi_rule"].as_array().map(|a| a.len()).unwrap_or(0))), || cj.clone());
+                    if let Some((sig, detail)) = v {
+                        rep.violation(&sig, detail, cj);
+                    }
+                }
+                Err(p) => rep.violation(&format!("panic/{}", common::panic_site(&p)), p, Value::Null),
             }
         }
         if i % 300 == 299 {
